@@ -95,7 +95,7 @@ func VerifC08_TraceMeasurements() {
 	sym.Intercept("golang.org/x/sys/unix.PtraceSetOptions", k.setOptions)
 	sym.Intercept("golang.org/x/sys/unix.PtraceCont", k.cont)
 	sym.Intercept("golang.org/x/sys/unix.Kill", k.kill)
-	sym.Intercept("github.com/criyle/go-sandbox/ptracer.ptraceGetRegSet", k.getRegs)
+	sym.Intercept("github.com/criyle/go-sandbox/ptracer.ptrace", k.ptraceReq)
 	sym.Intercept("syscall.PtraceSetRegs", k.setRegsReq)
 	t := &Tracer{Handler: &hookHandler{inner: h, k: k}, Limit: runner.Limit{TimeLimit: time.Duration(tl), MemoryLimit: runner.Size(ml)}}
 	res := t.trace(context.Background(), pgid)
